@@ -74,7 +74,7 @@ func c16NA(mask int, where string) *refcfg.NamingAuthority {
 		n.Oid = refcfg.S("1.2.276.0.76.3.1." + map[string]string{"adm": "1", "prof": "2"}[where])
 	}
 	if mask&2 != 0 {
-		n.Url = refcfg.S("http://" + where + ".naming.example")
+		n.Url = refcfg.S("HTTP://" + where + ".Naming.Example/a%20b#") // carried as written, not normalised
 	}
 	if mask&4 != 0 {
 		n.Text = refcfg.S("Näming Authority " + where)
